@@ -225,7 +225,10 @@ def write_depfile(env, path, output, seen_dirs, makeify=False):
         roots[Root.builddir] = None
 
         out = Writer(f, None)
-        out.write(output.string(roots), Syntax.target)
+        for i, o in enumerate(iterate(output)):
+            if i > 0:
+                out.write_literal(' ')
+            out.write(o.string(roots), Syntax.target)
         out.write_literal(':')
         for i in seen_dirs:
             out.write_literal(' ')
@@ -455,8 +458,11 @@ def _refresh_depfile(env, regen_files, seen_dirs):
 def _make_depfile_target(outputs):
     # When the regenerate rule has several outputs, the Make backend attaches
     # the recipe (and so the dependencies) to a stamp file; see
-    # `make.multitarget_rule`.
-    return outputs[0].addext('.stamp') if len(outputs) > 1 else outputs[0]
+    # `make.multitarget_rule`. Name both the build file and the stamp: the
+    # depfile is replaced before the build file is, so if this run changes
+    # the number of outputs and doesn't finish, the *old* build file must
+    # still find its target here.
+    return [outputs[0], outputs[0].addext('.stamp')]
 
 
 @make.post_rules_hook
